@@ -73,7 +73,7 @@ CLAIMS.update({
 })
 
 CLAIMS.update({
-    "C18": dict(text="Theorems over the training state machine with an ARBITRARY optimiser (Section variable: any function returning the same formulae with other weights/biases): C18_parameters_admissible (after >= 1 epoch weights >= 0 unless negative weights were requested, within w_max, biases in [0,b_max]; projection follows every optimiser step), C18_only_parameters_move, C18_final_state (bounds left behind = reset_bounds + infer under the final parameters), C18_contradiction_loss and C18_supervised_loss (>= 0; zero iff no bounds cross / labelled bounds equal their labels), C18_fol_contradiction_loss (first-order: the loss is the sum over rows, >= 0, zero iff has_contradiction() is false). Facts and labels are inputs the state machine cannot write. Partial: 'all parameters are finite' is outside an exact-rational model and is only monitored on the sampled traces.",
+    "C18": dict(text="Theorems over the training state machine with an ARBITRARY optimiser (Section variable: any function returning the same formulae with other weights/biases): C18_parameters_admissible (after >= 1 epoch weights >= 0 unless negative weights were requested, within w_max, biases in [0,b_max]; projection follows every optimiser step), C18_only_parameters_move, C18_final_state (bounds left behind = reset_bounds + infer under the final parameters), C18_contradiction_loss and C18_supervised_loss (>= 0; zero iff no bounds cross / labelled bounds equal their labels), C18_fol_contradiction_loss (first-order: the loss is the sum over rows, >= 0, zero iff has_contradiction() is false), C18_fol_supervised_loss (first-order: mean squared error over the labelled groundings present in the table, >= 0, zero iff each equals its label). Facts and labels are inputs the state machine cannot write. Partial: 'all parameters are finite' is outside an exact-rational model and is only monitored on the sampled traces.",
                 design="7/C18", technique="Coq proof (state machine around an optimiser oracle; projection and loss lemmas) + exact trace replay with a scripted optimiser + fresh-model re-inference on the implementation",
                 note=NOTE_TB + " Partial as stated (finiteness; float arithmetic of Adam not modelled; first-order models and alpha learning not in the training model)."),
 })
